@@ -91,3 +91,32 @@ def discharge(obls, procs=None, opts=None):
     ctx = mp.get_context("fork")
     with ctx.Pool(procs) as pool:
         return pool.map(discharge_one, jobs, chunksize=1)
+
+
+def reach_one(job):
+    """satisfiability of a path condition (vacuity guard): 'sat' | 'unsat' | 'unknown'"""
+    name, smt2, ms = job
+    try:
+        r, dt, model, reason = _check_z3(smt2, ms, want_model=False)
+        if r == "unknown" and "lambda" not in smt2:
+            text = smt2
+            r2, _ = _check_cvc5(text, max(2, ms // 1000))
+            if r2 in ("sat", "unsat"):
+                r = r2
+        return name, r
+    except Exception as e:
+        return name, "unknown"
+
+
+def reachability(named_formula_lists, ms=3000):
+    jobs = []
+    for name, fs in named_formula_lists:
+        s = z3.Solver()
+        for f in fs:
+            s.add(f)
+        jobs.append((name, s.to_smt2(), ms))
+    if not jobs:
+        return {}
+    ctx = mp.get_context("fork")
+    with ctx.Pool(min(16, len(jobs))) as pool:
+        return dict(pool.map(reach_one, jobs, chunksize=1))
